@@ -17,13 +17,19 @@ class BQLSemantics:
         return None
 
     def integer(self, value):
-        return int(value)
+        try:
+            return int(value)
+        except ValueError as exc:
+            raise tatsu.exceptions.FailedSemantics(str(exc)) from exc
 
     def decimal(self, value):
         return decimal.Decimal(value)
 
     def date(self, value):
-        return datetime.datetime.strptime(value, '%Y-%m-%d').date()
+        try:
+            return datetime.datetime.strptime(value, '%Y-%m-%d').date()
+        except ValueError as exc:
+            raise tatsu.exceptions.FailedSemantics(str(exc)) from exc
 
     def string(self, value):
         return value[1:-1]
